@@ -229,6 +229,36 @@ Theorem C14_custom_coder_calls_exact : coder_calls = coder_calls_expected.
 Proof. exact coder_calls_exact. Qed.
 Print Assumptions C14_custom_coder_calls_exact.
 
+(* ---- 3e. one hash ------------------------------------------------------------------------------ *)
+(* "equal objects have one encoding and one hash": in the model the hash of a decoded
+   object is H(encoding of its value), so any two accepted inputs that decode to equal
+   values have equal hashes for every H - including the two accepted spellings of a nil
+   recipient (the open rlp:"nil" finding).  The correspondence compares the
+   implementation's cached Hash() with this (case CHash: the byte string whose keccak256
+   Hash() is must be [hash_preimage], the encoding of the decoded value). *)
+Theorem C14_hash_depends_on_value_only :
+  forall (H : bytes -> bytes) s b1 b2 v,
+    decode_t s b1 = Some v -> decode_t s b2 = Some v -> hash_of H s b1 = hash_of H s b2.
+Proof. exact hash_depends_on_value_only. Qed.
+Print Assumptions C14_hash_depends_on_value_only.
+
+Theorem C14_hash_of_received_bytes_holds_outside :
+  forall (H : bytes -> bytes) s b v, wf_schema s = true ->
+    decode_t s b = Some v -> lenient_bytes cenc cdec s b = false -> hash_of H s b = Some (H b).
+Proof. exact hash_of_received_bytes. Qed.
+Print Assumptions C14_hash_of_received_bytes_holds_outside.
+
+(* the two spellings of a contract creation: one value, one hash preimage (the 0x80 form) *)
+Example C14_nonvacuous_one_hash :
+  (exists v, decode_t S_types_Transaction w_tx = Some v /\ decode_t S_types_Transaction w_tx_re = Some v) /\
+  hash_preimage S_types_Transaction w_tx = Some w_tx_re /\
+  hash_preimage S_types_Transaction w_tx_re = Some w_tx_re.
+Proof.
+  split; [eexists; split; [vm_compute; reflexivity|vm_compute; reflexivity]|].
+  split; vm_compute; reflexivity.
+Qed.
+Print Assumptions C14_nonvacuous_one_hash.
+
 (* ---- 4. hostile bytes: the specification decoder is total and linear ------------------ *)
 (* [decode] is a total Coq function (no exception, no divergence) and what it
    builds is at most twice the input.  PARTIAL with respect to the property:
